@@ -91,4 +91,14 @@ def basePlasma (isReceive : Bool) (methodCost : Option Nat) (dataLen : Nat) : Na
     | some c => c
     | none => dataLen * Gen.ABByteDataPlasma + Gen.AccountBlockBasePlasma
 
+/-- `vm.GetBasePlasmaForAccountBlock` as the node evaluates it for a user's block: the base cost depends on the block type,
+    on the cost of the called embedded method (when the destination is an embedded contract and the selector names one of
+    its methods) and on the data length ONLY - the destination of a plain send (an ordinary account, the zero address, the
+    sender itself) plays no role; a plain send whose data exceeds `MaxDataLength` has no base cost (ErrABDataTooBig) -/
+def basePlasmaChecked (isReceive : Bool) (methodCost : Option Nat) (dataLen : Nat) : Option Nat :=
+  if isReceive then some (basePlasma true methodCost dataLen)
+  else match methodCost with
+    | some c => some (basePlasma false (some c) dataLen)
+    | none => if dataLen > Gen.MaxDataLength then none else some (basePlasma false none dataLen)
+
 end ZV.Pow
